@@ -330,7 +330,7 @@ fn lifecycle_cmd(a: &Args) {
             // any subset of all mapped resources (also ones nobody accesses) pre-exists
             let all: Vec<u32> = r.rec.ctx.resmap.keys().copied().collect();
             let pre: Vec<u32> = all.into_iter().filter(|_| rng.gen_bool(0.4)).collect();
-            let repeat = *[1usize, 1, 2, 3].choose(&mut rng).unwrap();
+            let repeat = *[0usize, 1, 2, 3].choose(&mut rng).unwrap();
             // a refused conversion to the sendable form must hand back the complete dispatcher
             let has_tl = r.rec.sys.iter().any(|x| (x.kind == "tl" || x.kind == "nest") && x.builder == r.top);
             if has_tl && rng.gen_bool(0.5) {
